@@ -88,7 +88,7 @@ Charsets == { "bk", "utf-8", "koi8-r", "latin-1", "cp866" }
 AsciiCode(ch) == CASE ch = "A" -> 65 [] ch = "z" -> 122 [] ch = "d7" -> 55 [] ch = "sp" -> 32
                    [] ch = "semi" -> 59 [] ch = "dq" -> 34 [] ch = "sq" -> 39 [] ch = "sl" -> 47
                    [] ch = "bs" -> 92 [] ch = "lf" -> 10 [] ch = "cr" -> 13 [] ch = "ht" -> 9
-                   [] ch = "tilde" -> 126 [] ch = "nul" -> 0
+                   [] ch = "tilde" -> 126 [] ch = "nul" -> 0 [] ch = "del" -> 127
                    [] OTHER -> -1
 
 \* bytes of a character in a charset, <<>> = unencodable.  All five charsets extend ASCII.
@@ -97,8 +97,10 @@ AsciiCode(ch) == CASE ch = "A" -> 65 [] ch = "z" -> 122 [] ch = "d7" -> 55 [] ch
 \*   cp866   IBM 866:    ya = EF
 \*   latin-1 ISO 8859-1: eacute = E9
 \*   utf-8   RFC 3629:   two bytes 110xxxxx 10xxxxxx for U+0080..U+07FF
+\*   U+007F (DEL) is the one ASCII character the bk table does not have: its code 0x7F is the block character U+25A0
 CharBytes(ch, cs) ==
-    IF AsciiCode(ch) >= 0 THEN << AsciiCode(ch) >>
+    IF ch = "del" /\ cs = "bk" THEN <<>>
+    ELSE IF AsciiCode(ch) >= 0 THEN << AsciiCode(ch) >>
     ELSE CASE ch = "ya"     -> (CASE cs = "bk" -> <<209>> [] cs = "koi8-r" -> <<209>> [] cs = "cp866" -> <<239>>
                                   [] cs = "utf-8" -> <<209, 143>> [] OTHER -> <<>>)
            [] ch = "eacute" -> (CASE cs = "latin-1" -> <<233>> [] cs = "utf-8" -> <<195, 169>> [] OTHER -> <<>>)
@@ -113,12 +115,12 @@ MinusOne == 0 - 1
 \* escape forms \n \r \t \\ \" \' \/ \xHH (HH = 41, 7e, 00) and the character each denotes
 EscDenotes(c) == CASE c = "n" -> "lf" [] c = "r" -> "cr" [] c = "t" -> "ht" [] c = "bs" -> "bs"
                    [] c = "dq" -> "dq" [] c = "sq" -> "sq" [] c = "sl" -> "sl"
-                   [] c = "x41" -> "A" [] c = "x7e" -> "tilde" [] c = "x00" -> "nul"
+                   [] c = "x41" -> "A" [] c = "x7e" -> "tilde" [] c = "x00" -> "nul" [] c = "x7f" -> "del"
 Denotes(it) == IF it.k = "esc" THEN EscDenotes(it.c) ELSE it.c
 
 ItemAlphabet ==
-    { Ch(c) : c \in { "A", "z", "d7", "sp", "semi", "dq", "sq", "sl", "ya", "eacute", "alpha" } }
-    \cup { Esc(c) : c \in { "n", "r", "t", "bs", "dq", "sq", "sl", "x41", "x7e", "x00" } }
+    { Ch(c) : c \in { "A", "z", "d7", "sp", "semi", "dq", "sq", "sl", "ya", "eacute", "alpha", "del" } }
+    \cup { Esc(c) : c \in { "n", "r", "t", "bs", "dq", "sq", "sl", "x41", "x7e", "x00", "x7f" } }
     \cup { Raw(n) : n \in { 0, 65, 255, 256, MinusOne } }
 
 ItemBytes(it, cs) == IF it.k = "raw" THEN (IF it.v \in 0..255 THEN << it.v >> ELSE <<>>)
@@ -300,7 +302,8 @@ MagGE(v, n) == LET p == Pow(n) IN v.hi > p[1] \/ (v.hi = p[1] /\ v.lo >= p[2])
 Repertoire(c) == CASE c = "utf-8" -> { "ya", "eacute", "alpha" } [] c = "latin-1" -> { "eacute" }
                    [] OTHER -> { "ya" }                                   \* bk, koi8-r, cp866: Cyrillic
 ItemBad(it, c) == IF it.k = "raw" THEN it.v < 0 \/ it.v > 255
-                  ELSE AsciiCode(Denotes(it)) < 0 /\ Denotes(it) \notin Repertoire(c)
+                  ELSE \/ AsciiCode(Denotes(it)) < 0 /\ Denotes(it) \notin Repertoire(c)
+                       \/ Denotes(it) = "del" /\ c = "bk"             \* the written rule: bk is ASCII only up to 0x7E
 ShouldReject(s, a, c) ==
     CASE s.d \in StoreForms -> \/ (s.d \notin ByteForms /\ a % 2 = 1)
                                \/ \E j \in 1..Len(s.ops) : MagGE(s.ops[j], Width(s.d))
